@@ -9,7 +9,7 @@ from algrun import F
 ALLOWED_AXIOMS = set()
 TRUSTED_BASE = [
     "Coq 8.16.1 kernel (coqc); no native_compute; every C18 theorem: Closed under the global context",
-    "hand-written model Adaptive.v of generate_child_designs (itertools.product of the halved intervals) and of VOGP_AD's node bookkeeping (any discards, gated covers, refinements with the depth guard of should_refine_design), tied to the code by exact correspondence of refine_design (cells, points, depths, inherited regions; all values dyadic) and by monitoring real VOGP_AD runs",
+    "hand-written model Adaptive.v of generate_child_designs (itertools.product of the halved intervals) and of VOGP_AD's node bookkeeping (any discards, gated covers, refinements with the depth guard of should_refine_design); VOGP_AD.epsiloncovering (depth gate, latch, covering nest) and the set bookkeeping of evaluate_refine are REGENERATED (Gen_algos.v) and proved to be the model's Cover / Refine steps (AdaptiveRefine.v); generate_child_designs is regenerated too (Gen_adaptive.v: halves, itertools.product, row means) and proved equal to the model's children / centre; refine_design is additionally tied by exact correspondence (cells, points, depths, inherited regions; all values dyadic; chains down to depth 12) and by monitoring real VOGP_AD runs",
     "VOGP_AD runs use a stub GP (deterministic posterior around a user-defined continuous problem; RBF kernel type; identity kernel matrix) installed through the factory helper; the V_h refinement criterion is not modelled (should_refine is an arbitrary oracle below the maximum depth in the theorems)",
     "extraction with ExtrOcamlBasic only + driver; OCaml 4.13.1",
 ]
